@@ -8,6 +8,8 @@ package main
 
 import (
 	"bytes"
+	"crypto/hmac"
+	"crypto/sha1"
 	"fmt"
 	"math/rand"
 	"strings"
@@ -414,6 +416,198 @@ func (g *gen) schedExhaustive(w *world, depth, maxInFlight int, budget *int) {
 	rec(nil)
 }
 
+
+// C05 with loss and reordering inside a burst: of several messages sent under one key pair only a
+// later one arrives (or a later one overtakes); neither it nor anything older is accepted afterwards
+func (g *gen) lossyBurst(w *world) {
+	w.parties = map[string]*party{}
+	w.dead = false
+	version := 2 + g.r.Intn(2)
+	pol := 2
+	if version == 3 {
+		pol = 4
+	}
+	a := w.newParty(partyCfg{policies: pol, keyIdx: 0, errh: true})
+	b := w.newParty(partyCfg{policies: pol, keyIdx: 1, errh: true})
+	l := &link{w: w, a: a, b: b}
+	l.enqueue(a, []otr3.ValidMessage{w.query(a)})
+	l.settle(40)
+	// a little ordinary traffic first so that the ratchets are somewhere
+	for i := 0; i < g.r.Intn(4) && !w.dead; i++ {
+		p := []*party{a, b}[g.r.Intn(2)]
+		ts, _ := w.send(p, g.cleanText())
+		l.enqueue(p, ts)
+		l.settle(10)
+	}
+	if !a.c.IsEncrypted() || !b.c.IsEncrypted() || w.dead {
+		return
+	}
+	n := 3 + g.r.Intn(3)
+	var burst [][]byte
+	var texts [][]byte
+	for i := 0; i < n; i++ {
+		t := g.cleanText()
+		ts, _ := w.send(a, t)
+		if len(ts) != 1 {
+			return
+		}
+		burst = append(burst, ts[0])
+		texts = append(texts, t)
+	}
+	k := 1 + g.r.Intn(n-1) // the message that gets through first
+	plain, ts, _, _ := w.recv(b, burst[k])
+	l.enqueue(b, ts)
+	olog.ok("C05")
+	if !bytes.Equal(plain, texts[k]) {
+		return // (not accepted: nothing to replay)
+	}
+	for rep := 0; rep < n && !w.dead; rep++ {
+		for j := 0; j <= k; j++ { // the accepted one again, and everything older
+			p, back, _, _ := w.recv(b, burst[j])
+			answered := false
+			for _, m := range back { // an OTR error reply is the only thing a rejected message may cause
+				if !isErrorReply(m) {
+					answered = true
+				}
+			}
+			if p != nil || answered {
+				olog.viol("C05", "replay-delivered", fmt.Sprintf("OTRv%d: of a burst of %d messages number %d arrived first; afterwards number %d was delivered (repetition %d): %q", version, n, k+1, j+1, rep+1, p))
+				return
+			}
+		}
+	}
+	// the newer ones are still fine, once
+	for j := k + 1; j < n && !w.dead; j++ {
+		p, back, _, _ := w.recv(b, burst[j])
+		l.enqueue(b, back)
+		olog.ok("C04")
+		if !bytes.Equal(p, texts[j]) {
+			olog.viol("C04", "genuine-message-rejected", fmt.Sprintf("OTRv%d: message %d of a burst was not delivered after message %d had overtaken it", version, j+1, k+1))
+		}
+	}
+}
+
+
+// C09: a fixed crossing schedule in which a rotation of the peer's key (retiring a used pair) is
+// followed, with no data message sent in between, by a rotation of our own key: both retirements
+// must show up in the next outgoing message
+func (g *gen) crossingRotations(w *world) {
+	version := 2 + g.r.Intn(2)
+	sl := newSchedLink(w, g, version, 0, 0)
+	if !sl.a.c.IsEncrypted() || !sl.b.c.IsEncrypted() {
+		return
+	}
+	A, B := sl.a, sl.b
+	toA, toB := false, true
+	t := func(p *party) { sl.sendText(p, g.cleanText()) }
+	t(B)
+	t(A)
+	sl.deliverOne(toA)
+	sl.deliverOne(toB)
+	t(A)
+	t(B)
+	sl.deliverOne(toA)
+	t(A)
+	sl.deliverOne(toB)
+	t(B)
+	sl.deliverOne(toB)
+	t(B)
+	sl.deliverOne(toA)
+	sl.deliverOne(toA)
+	t(A)
+	sl.drain()
+	for i := 0; i < 4 && !w.dead; i++ {
+		t(A)
+		sl.drain()
+		t(B)
+		sl.drain()
+	}
+	g.dist["sched:crossing-rotations"]++
+}
+
+
+// C02: forgery from disclosed MAC keys. A genuine message is held back; every MAC key the addressee
+// discloses in the meantime is used to authenticate an altered copy of it; none may be accepted, and
+// the genuine one still is.
+func (g *gen) forgeryFromDisclosedKeys(w *world) {
+	w.parties = map[string]*party{}
+	w.dead = false
+	version := 2 + g.r.Intn(2)
+	pol := 2
+	if version == 3 {
+		pol = 4
+	}
+	a := w.newParty(partyCfg{policies: pol, keyIdx: 0, errh: true})
+	b := w.newParty(partyCfg{policies: pol, keyIdx: 1, errh: true})
+	l := &link{w: w, a: a, b: b}
+	starter := []*party{a, b}[g.r.Intn(2)]
+	l.enqueue(starter, []otr3.ValidMessage{w.query(starter)})
+	l.settle(40)
+	if !a.c.IsEncrypted() || !b.c.IsEncrypted() || w.dead {
+		return
+	}
+	var fromA [][]byte // everything a has put on the wire (the attacker reads it)
+	sendA := func() {
+		ts, _ := w.send(a, g.cleanText())
+		for _, m := range ts {
+			fromA = append(fromA, m)
+		}
+		l.enqueue(a, ts)
+	}
+	for i := 0; i < g.r.Intn(3); i++ { // the ratchets are somewhere
+		sendA()
+		l.settle(6)
+		ts, _ := w.send(b, g.cleanText())
+		l.enqueue(b, ts)
+		l.settle(6)
+	}
+	sendA()
+	l.settle(6)
+	ts, _ := w.send(b, g.cleanText())
+	l.enqueue(b, ts)
+	l.settle(6)
+	heldText := []byte("pay 100 to carol")
+	held, _ := w.send(b, heldText) // not delivered yet
+	if len(held) != 1 || w.dead {
+		return
+	}
+	for i := 0; i < 1+g.r.Intn(2); i++ {
+		sendA()
+		l.settle(6)
+	}
+	bin := decodeWire(held[0])
+	f, ok := dataFields(bin, version)
+	if !ok || f.encEnd-f.encStart < 5 {
+		return
+	}
+	tried := 0
+	for _, m := range fromA {
+		fm, ok := dataFields(decodeWire(m), version)
+		if !ok || !isDataWire(m) {
+			continue
+		}
+		for i := 0; i+20 <= len(fm.old); i += 20 {
+			forged := append([]byte{}, bin...)
+			forged[f.encStart+4] ^= '1' ^ '9' // "pay 100" -> "pay 900"
+			mac := hmac.New(sha1.New, fm.old[i:i+20])
+			mac.Write(forged[:f.macStart])
+			copy(forged[f.macStart:f.macStart+20], mac.Sum(nil))
+			tried++
+			olog.ok("C02")
+			plain, _, _, _ := w.recv(a, encodeWire(forged))
+			if plain != nil {
+				olog.viol("C02", "forged-with-disclosed-key-delivered", fmt.Sprintf("OTRv%d: %s accepted %q, a message its peer never sent: the held-back %q altered and authenticated with a MAC key %s had disclosed itself", version, a.id, plain, heldText, a.id))
+				return
+			}
+		}
+	}
+	g.dist[fmt.Sprintf("sched:forgeries-tried:%d", tried)]++
+	plain, _, _, _ := w.recv(a, held[0])
+	if !bytes.Equal(plain, heldText) {
+		olog.viol("C04", "genuine-message-rejected", fmt.Sprintf("OTRv%d: the genuine held-back message was not delivered after %d rejected forgeries", version, tried))
+	}
+}
+
 func init() {
 	profiles["sched"] = func(seed int64, n int, out *emitter, extra map[string]interface{}) map[string]int {
 		g := &gen{r: rand.New(rand.NewSource(seed)), out: out, dist: map[string]int{}}
@@ -423,6 +617,17 @@ func init() {
 			w.parties = map[string]*party{}
 			w.dead = false
 			g.schedScenario(w, 40+g.r.Intn(80))
+			if i%3 == 0 {
+				g.lossyBurst(w)
+			}
+			if i%4 == 0 {
+				w.parties = map[string]*party{}
+				w.dead = false
+				g.crossingRotations(w)
+			}
+			if i%2 == 0 {
+				g.forgeryFromDisclosedKeys(w)
+			}
 		}
 		extra["panics"] = panicCount
 		olog.export(extra)
